@@ -533,6 +533,75 @@ def stage_targeted(ctx: Ctx):
                             ast.parse(after)
                         except SyntaxError as e:
                             ctx.violation('text|targeted|unparsable', 'the edited source no longer parses', {'before': src, 'after': after, 'action': act, 'trivia': repr(tv), 'error': str(e)})
+    # (h) the line above the removed statement ends in a comment whose last character is a backslash (NOT a line continuation): the comment stays
+    for ind, head in (('', ''), ('    ', 'if c:\n'), ('        ', 'class K:\n    def m(self):\n')):
+        for above in (f'{ind}a = 1  # dir is C:\\tools\\\n', f'{ind}a = 1; aa = 2  # after a semicolon \\\n', None):
+            if above is None:
+                if not head:
+                    continue
+                lines_ = head.split('\n')
+                src = '\n'.join(lines_[:-2] + [lines_[-2] + '  # header comment \\']) + '\n' + f'{ind}b = 2\n{ind}c = 3\n'
+                idx = 0
+            else:
+                src = head + above + f'{ind}b = 2\n{ind}c = 3\n'
+                idx = 2 if ';' in above else 1
+            try:
+                ast.parse(src)
+            except SyntaxError as e:
+                ctx.broken.append({'kind': 'harness', 'name': 'targeted-h', 'detail': f'{src!r}: {e}'})
+                continue
+            for tv in (None, (False, False), (True, True), ('all', 'all'), ('block', 'line'), False, 'all+'):
+                for act in ('remove', 'cut', 'replace', 'put_slice_del', 'put_slice_repl'):
+                    root = fst.FST(src, 'exec')
+                    holder = root
+                    for _ in range(head.count(':\n')):
+                        holder = holder.body[0]
+                    st = holder.body[idx]
+                    kw = {} if tv is None else {'trivia': tv}
+                    try:
+                        if act == 'remove':
+                            st.remove(**kw)
+                        elif act == 'cut':
+                            st.cut(**kw)
+                        elif act == 'replace':
+                            st.replace('z = 0', **kw)
+                        elif act == 'put_slice_del':
+                            holder.put_slice(None, idx, idx + 1, 'body', **kw)
+                        else:
+                            holder.put_slice('z = 0', idx, idx + 1, 'body', **kw)
+                    except Exception:
+                        continue
+                    ctx.tick(('targeted-h', src, repr(tv), act), 'op:targeted-backslash-comment-above')
+                    if comments(root.src) != comments(src):
+                        ctx.violation('comment-lost|comment-ending-in-backslash-above', 'removing / replacing a statement lost the comment on the line above it (a comment that ends in a backslash is not a line continuation)',
+                                      {'before': src, 'after': root.src, 'action': act, 'trivia': repr(tv)})
+    # (i) leading operands of a BoolOp deleted when the operator is written directly against the next operand: nothing but the operands and their operators goes
+    for src, path, n in [('x = a or(b) or c\n', 'body[0].value', 3), ('x = a and[b] and c\n', 'body[0].value', 3), ('x = a and"s"and d\n', 'body[0].value', 3), ('if a and(b or c) and d: pass\n', 'body[0].test', 3),
+                         ('x = a or-b or c\n', 'body[0].value', 3), ('x = (a)or(b)or(c)or d\n', 'body[0].value', 4), ('x = a  or\\\n  b or{c}\n', 'body[0].value', 3), ('x = not a or not b or not c\n', 'body[0].value', 3)]:
+        for k in range(1, n - 1):
+            for act in ('put_slice_del', 'remove_first'):
+                if act == 'remove_first' and k != 1:
+                    continue
+                root = fst.FST(src, 'exec')
+                node = eval('root.' + path)
+                want = ast.parse(src)
+                wn = eval('want.' + path)
+                del wn.values[:k]
+                try:
+                    if act == 'put_slice_del':
+                        node.put_slice(None, 0, k, 'values')
+                    else:
+                        node.values[0].remove()
+                except Exception as e:
+                    continue
+                ctx.tick(('targeted-i', src, k, act), 'op:targeted-boolop-glued-operator')
+                try:
+                    ok = ast.dump(ast.parse(root.src)) == ast.dump(ast.parse(ast.unparse(want)))
+                except SyntaxError:
+                    ok = False
+                if not ok:
+                    ctx.violation('text|targeted|boolop-leading-operands', 'deleting the leading operands of a BoolOp removed (or damaged) text of the operands that stay',
+                                  {'before': src, 'after': root.src, 'deleted_operands': k, 'action': act, 'expected': ast.unparse(want)})
     # (c) docstr=False / 'strict': moving or re-indenting statements never touches the inside of multi-line strings that are not docstrings
     strs = lambda t: sorted(n.value for n in ast.walk(t) if isinstance(n, ast.Constant) and isinstance(n.value, str))
     progs_c = ['if a:\n    pass\nelif b:\n    x = 1\n    \'\'\'not a docstring\ncontinued at col 0\n      and more\'\'\'\n    y = 2\n',
